@@ -18,7 +18,7 @@ META = {
  'C03': dict(
   faults=('fail', 'shutdown', 'restore', 'block', 'addres', 'adjust', 'rewire')),
  'C04': dict(
-  level_text='Seeded search over serial lines (0-6 stations of mixed kinds, cycle times/delays incl. zero, buffer capacities 1..inf, budgets, horizons, tie-break adversaries, id offsets): every arrival time recorded at every station is compared with == against an independent 30-line max-plus recurrence; the two serial examples are rebuilt from their parameters and must give their documented counts. Sampling of configurations; exact comparison per configuration.',
+  level_text='Seeded search over serial lines (0-6 stations of mixed kinds, cycle times/delays incl. zero, buffer capacities 1..inf, part budgets incl. 0, horizons, tie-break adversaries, id offsets): every arrival time recorded at every station is compared with == against an independent 30-line max-plus recurrence; the two serial examples are rebuilt from their parameters and must give their documented counts. Sampling of configurations; exact comparison per configuration.',
   level_note='Trusts the reference recurrence (simv/linesim.py reference(), no library code) and the dyadic grid for exact float equality.',
   rule='linesim: one run = one serial line; indices 0-1 are examples/SingleProcessor (99) and examples/BufferExample (10079). Non-trivial = >= 3 arrival times compared; distinct = distinct dispatch-sequence digest.',
   assumptions=['cycle times, delays and horizons are dyadic; an unlimited zero-cycle source is only generated in front of a positive-time finite stage (DESIGN.md 2.5)'],
@@ -37,9 +37,10 @@ META = {
  'C07': dict(),
  'C08': dict(
   level_text='Seeded search over routing-heavy models (fan-out/fan-in, complementary gate sets, groups shared by several paths, back-to-back, re-entrant and nested group paths, input blocks, batches, congestion): after every event each part\'s routing history must be a walk in the route graph derived from the spec with a stack discipline for group paths, the holders observed by the census must equal the history filtered to holding devices, gates must have accepted what passed them, blocked inputs gain nothing, and sinks collect in arrival order.',
-  level_note='Route graph comes from the spec, never from the objects. Clause C08.f (idle-longest candidate) is checked only through its observable consequence in C04/C14 and is not separately decided (see DESIGN.md).',
-  rule=FLOOR_RULE + 'c08 profile (no rewiring so that the route graph is a fixed function of the spec). Non-trivial as C02; distinct = dispatch digest.',
-  reach={'group_exits': 500, 'nested_group_entries': 20},
+  level_note='Route graph comes from the spec and from the set_upstream calls the harness issued, never from the objects. Idle-longest (C08.f): before a hand-over with a choice, and after every dispatch, forked what-if probes establish which parallel single-slot candidates (connected directly or through pass-through controllers) would have accepted the part; a violation needs a candidate idle longer than the taker under both readings of "idle".',
+  rule=FLOOR_RULE + 'half of the runs use the c08 profile (gates, groups, nesting, set_upstream rewiring incl. to no upstream at all), half the c08f profile (parallel single-slot devices, a third of them behind a pass-through gate or plain PartFlowController). Non-trivial as C02; distinct = dispatch digest.',
+  reach={'group_exits': 500, 'nested_group_entries': 20, 'handovers_with_choice_probed': 1000, 'choice_with_distinct_idle_times': 500,
+         'choice_through_pass_through_controller': 500, 'routes_checked_after_rewire': 200},
   faults=('fail', 'shutdown', 'block', 'wake')),
  'C09': dict(
   level_text='Every op of a generated history (add/remove capacity incl. zero, negative, unknown names; single/multi reserve with zero, negative and unknown entries; full, partial, over-, negative and unknown-key release; repeated release; merge) is executed on the real ResourceManager and compared with a two-dict reference model after each op; erroneous calls are the injected faults: an op that raises must leave all observable state unchanged. Plus a complete sweep of all sequences up to length 3 (quick) / 4 (thorough) over a 17-op alphabet.',
@@ -49,11 +50,12 @@ META = {
   real_vs_stub={'real': ['ResourceManager', 'ReservedResources', 'System/Environment (initialised, ticks run the scheduled checks)'], 'stub': []},
   reach={'negative_request': 100, 'invalid_release': 100, 'merge': 100, 'partial_release': 100, 'repeated_release': 50, 'multi_partial_fit_refused': 50}),
  'C10': dict(
-  level_text='Registrations, direct reservations, releases and capacity changes are injected as events at generated times/priorities (piled on few instants half of the time) on a real Environment; at every availability-check event an executable scan model (registration order, feasibility re-evaluated after every callback, callbacks that reserve / do nothing / register again) predicts exactly which callbacks run; at every clock advance no feasible request may still be waiting.',
-  level_note='Pool usage/capacity are read through the public getters at the start of each check event; callbacks never release inside a scan (availability is monotone within a scan, so the model is exact).',
+  level_text='Registrations, direct reservations, releases and capacity changes are injected as events at generated times/priorities (piled on few instants half of the time) on a real Environment; at every availability-check event an executable scan model (registration order, feasibility re-evaluated after every callback, callbacks that reserve / do nothing / register again) predicts exactly which callbacks run; at every clock advance no feasible request may still be waiting. 12% of the runs use decimal amounts (not exactly representable): where rounding decides whether a request fits, the model makes no prediction and the manager\'s own direct reserve_resources (asked in a forked child) is the arbiter - a request called back must be reservable inside its callback, a request left waiting must not be reservable directly.',
+  level_note='Pool usage/capacity are read through the public getters at the start of each check event.',
   rule='poolsim timed: 3-40 ops over 3 resources. Non-trivial = >= 1 callback invoked; distinct = digest of the callback log.',
   real_vs_stub={'real': ['ResourceManager', 'Environment', 'System'], 'stub': ['request callbacks (harness)', 'tie-break weights']},
-  reach={'multi_callback_scan': 100, 'quiescent_with_waiters': 100}),
+  reach={'multi_callback_scan': 100, 'quiescent_with_waiters': 100, 'release_inside_callback': 100,
+         'scan_with_rounding_dependent_fit': 50, 'rounding_dependent_fit_probed': 50}),
  'C11': dict(
   level_text='Seeded search over models in which several processors (also inside shared groups) compete for 1-2 pools under capacity schedules through zero, failures, work orders and blocks; holdings of every processor and usage of every pool are compared after every event; idle operational processors must hold nothing at every clock advance.',
   level_note='Holdings are read from the processor\'s ReservedResources object (private reference, public reserved_resources view).',
@@ -73,11 +75,12 @@ META = {
   reach={'failure_with_part': 100, 'failure_while_down': 50, 'failure_with_finished_part': 20, 'redundant_shutdown': 50, 'redundant_restore': 50},
   faults=('fail', 'shutdown', 'restore', 'wo')),
  'C14': dict(
-  level_text='Twin runs: (a) the same model and seed twice and under different asset-id offsets, with the real seeded global generator or an adversary producing many exact weight ties; (b) simulate(a+b) against simulate(a);simulate(b) for grid split points with tie-breaks fixed as a function of event content; (c) simulate_multiple_times for max_processes in {1,2,3,n,None} on a simulated process pool (virtual workers with private process globals, seeded task placement, pickle boundary) against max_processes=0, plus the real process pool as a control. Id-normalised recorded data, counters, clock and pending queue must be equal.',
+  level_text='Twin runs: (a) the same model and seed twice and under different asset-id offsets, with the real seeded global generator or an adversary producing many exact weight ties; (b) simulate(a+b) against simulate(a);simulate(b) for grid split points with tie-breaks fixed as a function of event content; (c) simulate_multiple_times for max_processes in {1,2,3,n,None} on a simulated process pool (virtual workers with private process globals, seeded task placement, pickle boundary) against max_processes=0, plus the real process pool as a control; half of these models carry a maintainer with work orders that take time, scheduled failures, a shift scheduler and a periodic sensor, so that results cross the pickle boundary with orders in progress, paused events and pending samples. Id-normalised recorded data, counters, clock and pending queue must be equal.',
   level_note='The real pool\'s scheduling is not controlled; SimPool replaces it for the search (stub), the real pool is a control whose outcome must not depend on scheduling.',
   rule='lifesim: 3 of 4 runs are twin pairs on floorsim c14 models (merge topologies, callbacks drawing from random), 1 of 4 is a simulate_multiple_times case (1 in 200 with the real pool). Non-trivial = >= 10 dispatches compared; distinct = digest of the recorded data.',
   real_vs_stub={'real': ['all of simprocesd.model', 'pickle', 'concurrent.futures.ProcessPoolExecutor (control runs)'], 'stub': ['SimPool (simulated process pool)', 'content-hash tie-break weights for split runs', 'callbacks']},
-  reach={'offset': 50, 'repeat': 20, 'split': 50, 'worker_reused': 20}),
+  reach={'offset': 50, 'repeat': 20, 'split': 50, 'worker_reused': 20, 'result_with_work_order_in_progress': 50,
+         'result_with_paused_events': 20}),
  'C15': dict(
   level_text='Seeded search; after every event the last recorded buffer level and resource usage/capacity are compared with the live objects, every new record must be stamped with the current time, received/produced records must equal what harness callbacks saw (id, quality, value) at that moment, record counts must equal occurrence counts, and in a quarter of the runs the exported trace file is read back and compared entry by entry with the observed dispatch sequence.',
   level_note='HOME points at a per-process scratch directory for the trace export; occurrence counts come from harness callbacks and from executed event types.',
@@ -85,9 +88,10 @@ META = {
   reach={'traces_compared': 100},
   faults=('fail', 'addres', 'wo')),
  'C16': dict(
-  level_text='Seeded search; after every event value == initial + sum of history deltas for every registered asset and every part inside the line, history entries are stamped and totalled consistently, source cost / sink revenue / maintainer cost identities hold against values the harness read at hand-over, batches are worth the sum of their parts, net value is the sum over registered assets.',
+  level_text='Seeded search; after every event value == initial + sum of history deltas for every registered asset and every part inside the line, history entries are stamped and totalled consistently, source cost / sink revenue / maintainer cost identities hold against values the harness read at hand-over, batches are worth the sum of their parts, net value is the sum over registered assets (assets are also created while the simulation runs, some of them with a name another asset already has).',
   level_note='Part values at hand-over are read in receive callbacks registered last.',
   rule=FLOOR_RULE + 'c16 profile. Non-trivial as C02; distinct = dispatch digest.',
+  reach={'duplicate_asset_name': 100},
   faults=('fail', 'wo')),
  'C17': dict(
   level_text='Seeded search with batch sources (singles, batches of 1-5, empty batches) and batchers of size None,1,2,3,4: per batcher the concatenated sequence of parts leaving equals the sequence arriving, emitted batches have exactly n parts, input is accepted only with nothing left to unpack and nothing waiting, sinks and buffers count every part, batch routing-history updates reach every contained part.',
@@ -101,14 +105,14 @@ META = {
   real_vs_stub={'real': ['ActionScheduler', 'Environment', 'System'], 'stub': ['actions (harness)', 'registered objects']},
   reach={'register_during_run': 200, 'unregister_during_run': 200, 'noncyclical_reached_end': 100}),
  'C19': dict(
-  level_text='Periodic sensors (dyadic and non-dyadic intervals, 1-3 probes incl. a mutable list, capacities 1..inf) and output-part sensors (sensing interval 0-3) on a processor in a line with failures and shutdowns, 1-3 callbacks, 0-2 CMS with add_sensor called once or twice: sampling instants, stored copies, callback order/arguments, trimming and alignment of all series, measured part indices and CMS deliveries are compared with an independently computed schedule and with values a harness callback read at the same dispatch.',
+  level_text='Periodic sensors (dyadic and non-dyadic intervals, 1-3 probes incl. a mutable list, capacities 1..inf) and output-part sensors (sensing interval 0-3) on a processor in a line with failures and shutdowns, 1-3 callbacks, 0-2 CMS with add_sensor called once or twice, a quarter of the sensors constructed from inside an event or between two simulate() calls: sampling instants, stored copies, callback order/arguments, trimming and alignment of all series, measured part indices and CMS deliveries are compared with an independently computed schedule and with values a harness callback read at the same dispatch.',
   level_note='Trusts the independent schedule computation in simv/schedsim.py.',
   rule='schedsim sensors: 1-3 sensors per run. Non-trivial = >= 5 dispatches; distinct = dispatch digest.',
   real_vs_stub={'real': ['Sensor, PeriodicSensor, OutputPartSensor, Probe, AttributeProbe, Cms, PartProcessor line'], 'stub': ['probed target object', 'on-sense callbacks', 'Cms subclass that logs']},
-  reach={'trimmed': 200, 'inplace_mutation': 200, 'cms_added_twice': 100}),
+  reach={'trimmed': 200, 'inplace_mutation': 200, 'cms_added_twice': 100, 'sensor_created_late': 500, 'manual_sense': 200}),
  'C20': dict(
   level_text='Lifecycle programs (system creations, constructions of every asset class before, between and after simulate calls, simulate on active and replaced systems, find_assets queries) with registration / initialise-once / active-system / look-up oracles, and late-created-asset scenarios (each class constructed from inside an event at time tau) compared with a twin created before the start (time-shifted for autonomous assets, input blocked until tau for consuming chains).',
-  level_note='Asset.initialize is wrapped to count calls; one listed known finding (Source constructed during the run).',
+  level_note='Asset.initialize is wrapped to count calls; lists returned by find_assets are modified by the harness afterwards (they belong to the caller).',
   rule='lifesim: even indices are lifecycle programs (4-25 steps), odd indices late-creation twins over 11 scenarios. Non-trivial = a twin scenario or >= 2 assets created; distinct = digest of the program / observations.',
   real_vs_stub={'real': ['System, Asset and every asset class of simprocesd.model'], 'stub': ['gate predicate', 'Maintainable target', 'probe target']},
   reach={'created_after_start': 200, 'nonempty_query': 200}),
